@@ -138,12 +138,38 @@ func H_C18_Ctx(shape int) {
 	if cancelled {
 		s.CtxCancel = tag
 	}
+	// sibling/child handles bound to another context are derived from the same
+	// handle and used first: they carry their own context and must not re-bind db
+	other := verifrt.Intn("other_tag", 1001, 2000)
+	octx := context.WithValue(context.Background(), ctxTagKey{}, other)
+	var child *gorm.DB
+	switch verifrt.Concretize(verifrt.Intn("noise", 0, 4), 0, 4) {
+	case 1:
+		child = db.Session(&gorm.Session{NewDB: true, Context: octx})
+	case 2:
+		child = db.WithContext(octx)
+	case 3:
+		child = db.Session(&gorm.Session{Context: octx})
+	case 4:
+		child = db.Where("age > ?", 1).Session(&gorm.Session{Context: octx, NewDB: true})
+	}
+	if child != nil {
+		var probe Item
+		child.First(&probe)
+	}
+	mark := len(s.Log)
+	for _, e := range s.Log {
+		switch e.Kind {
+		case "BEGIN", "PREPARE", "EXEC", "QUERY":
+			verifrt.Assert(e.Ctx == other, "C18.child-context:"+e.Kind)
+		}
+	}
 	hooks = &hookCtl{}
 	c.run(db)
 	verifrt.Reach("ran")
 	verifrt.Observe("log", s.Kinds())
 	n := 0
-	for _, e := range s.Log {
+	for _, e := range s.Log[mark:] {
 		switch e.Kind {
 		case "BEGIN", "PREPARE", "EXEC", "QUERY":
 			n++
